@@ -223,6 +223,97 @@ def rand_session(rng, k):
 	return {'kind': 'session', 'curve': CURVES[k % 2], 'style': style, 'ops': ops}
 
 
+def related_paths(rng):
+	"""Paths from ONE node whose textual spellings overlap although their components differ: a component that is a decimal prefix /
+	extension of another (43 and 4343, 1 and 10..19, 4 and 44), components that concatenate to the same digits ([1, 23], [12, 3], [123]),
+	a path and its own prefixes / extensions.  Each is a separate SLIP-10 chain."""
+	style = rng.randrange(5)
+	if style == 0:      # one mnemonic for both chains: NEM, Symbol and testnet accounts from one root
+		account = rng.choice([0, 1, rng.randrange(100)])
+		paths = [[44, 43, account, 0, 0], [44, 4343, account, 0, 0], [44, 1, account, 0, 0], [44, 434, account, 0, 0], [4, 43, account, 0, 0]]
+	elif style == 1:    # a wallet with more than ten accounts
+		coin = rng.choice([4343, 43, 1])
+		first = rng.randrange(1, 10)
+		paths = [[44, coin, account, 0, 0] for account in (first, 10 * first + rng.randrange(10), 100 * first + rng.randrange(100), first, 0, 10 * first)]
+	elif style == 2:    # decimal prefix / extension of a random component at a random depth
+		base = rand_path(rng, rng.randrange(1, 5))
+		where = rng.randrange(len(base))
+		value = base[where] if base[where] else 7
+		variants = [value, (value * 10 + rng.randrange(10)) % 2**31, int(str(value)[:-1] or '0'), int(str(value) + str(value)) % 2**31]
+		paths = [base[:where] + [variant] + base[where + 1:] for variant in variants]
+	elif style == 3:    # the same digits cut differently
+		digits = ''.join(rng.choice('123456789') for _ in range(rng.randrange(3, 7)))
+		cuts = sorted(rng.sample(range(1, len(digits)), 2))
+		paths = [[int(digits)], [int(digits[:cuts[0]]), int(digits[cuts[0]:])], [int(digits[:cuts[1]]), int(digits[cuts[1]:])],
+			[int(digits[:cuts[0]]), int(digits[cuts[0]:cuts[1]]), int(digits[cuts[1]:])]]
+	else:               # prefixes and extensions of one path
+		base = rand_path(rng, rng.randrange(2, 6))
+		paths = [base, base[:-1], base + [rng.randrange(10)], base[:1], base]
+	rng.shuffle(paths)
+	return paths
+
+
+def related_session(rng, k):
+	"""One root (or one inner node) derives a family of related paths, some of them twice."""
+	paths = related_paths(rng)
+	ops = [['seed', rand_seed(rng, k).hex()]]
+	if k % 3 == 2:
+		ops.append(['descend', rand_path(rng, 1)])
+	for path in paths + paths[:2]:
+		ops.append(['derive', path])
+	return {'kind': 'session', 'curve': CURVES[k % 2], 'style': 'related-paths', 'ops': ops}
+
+
+def zero_byte_accounts(rng, facade, network, seed):
+	"""Accounts (searched upwards from a seeded start with the SLIP-10 reference) whose node key has 0x00 as its last / its first byte."""
+	coin = {('symbol', 'mainnet'): 4343, ('nem', 'mainnet'): 43}.get((facade, network), 1)
+	curve = 'ed25519' if facade == 'symbol' else 'ed25519-keccak'
+	key, chain = slip10_path(curve, seed, [44, coin])
+	found = {}
+	account = rng.randrange(2**20)
+	for _ in range(20000):
+		node_key = key, chain
+		for index in (account, 0, 0):
+			node_key = slip10_child(node_key[0], node_key[1], index)
+		if node_key[0][-1] == 0:
+			found.setdefault('trailing', account)
+		if node_key[0][0] == 0:
+			found.setdefault('leading', account)
+		if len(found) == 2:
+			break
+		account += 1
+	return found
+
+
+PATH_EDITS = ['none', 'set-address-index', 'append', 'pop', 'set-account', 'clear', 'none', 'reverse']
+
+
+def edit_path(path, edit):
+	"""What a caller may do with a path it was given (its own list, by the function's contract)."""
+	if edit == 'set-address-index':
+		path[4] = 9
+	elif edit == 'append':
+		path.append(7)
+	elif edit == 'pop':
+		path.pop()
+	elif edit == 'set-account':
+		path[2] = 2**31 - 1
+	elif edit == 'clear':
+		path.clear()
+	elif edit == 'reverse':
+		path.reverse()
+
+
+def path_session(rng, k):
+	"""ONE facade is asked for the paths of several accounts; every returned list is kept, some are edited by the caller."""
+	steps = [
+		{'account': rng.choice([0, 1, 2, 7, rng.randrange(2**31)]), 'then': 'none' if index == 0 else rng.choice(PATH_EDITS)}
+		for index in range(rng.randrange(2, 7))]
+	if k % 2:
+		steps[0]['then'] = rng.choice(PATH_EDITS[1:6])
+	return {'kind': 'pathsession', 'facade': ('symbol', 'nem')[k % 2], 'network': ('mainnet', 'testnet')[(k // 2) % 2], 'steps': steps}
+
+
 def gen_cases(rng, tier):
 	quick = tier == 'quick'
 	cases = []
@@ -289,6 +380,19 @@ def gen_cases(rng, tier):
 	# call sequences on one factory instance (state kept between calls must not leak from one call into the next)
 	for k in range(15 if quick else 200):
 		cases.append(rand_session(rng, k))
+	# one node, a family of paths whose spellings overlap (decimal prefixes, re-cut digits, prefixes / extensions)
+	for k in range(10 if quick else 150):
+		cases.append(related_session(rng, k))
+	# node keys with a zero byte at either end (fixed-width handling of the 32 key bytes), both facades and networks
+	for k in range(1 if quick else 6):
+		seed = rand_seed(rng, 2 + 3 * k)
+		for facade in ('symbol', 'nem'):
+			for network in ('mainnet', 'testnet'):
+				for where, account in sorted(zero_byte_accounts(rng, facade, network, seed).items()):
+					cases.append({'kind': 'keypair', 'facade': facade, 'network': network, 'seed': seed.hex(), 'account': account, 'zero_byte': where})
+	# one facade asked several times, the returned lists kept and edited
+	for k in range(12 if quick else 120):
+		cases.append(path_session(rng, k))
 	return cases
 
 
@@ -405,7 +509,32 @@ def impl(case):
 		return guarded(lambda: show_node(factory.from_mnemonic(case['mnemonic'], case['passphrase'])))
 	if kind == 'session':
 		return impl_session(case)
+	if kind == 'pathsession':
+		return impl_path_session(case)
 	raise ValueError(kind)
+
+
+def impl_path_session(case):
+	"""A fresh facade; per step the list as returned, at the end every kept list as it is then."""
+	def go():
+		if case['facade'] == 'symbol':
+			from symbolchain.facade.SymbolFacade import SymbolFacade
+			facade = SymbolFacade(case['network'])
+		else:
+			ensure_nem_key_pair_usable()
+			from symbolchain.facade.NemFacade import NemFacade
+			facade = NemFacade(case['network'])
+		kept, shown = [], []
+		for step in case['steps']:
+			path = facade.bip32_path(step['account'])
+			shown.append(','.join(str(v) for v in path))
+			kept.append(path)
+			try:
+				edit_path(path, step['then'])
+			except IndexError:
+				pass    # nothing to pop / overwrite in the caller's list
+		return ';'.join(shown) + '#' + ';'.join(','.join(str(v) for v in path) for path in kept)
+	return guarded(go)
 
 
 def impl_session(case):
@@ -471,7 +600,7 @@ def model(case):
 		key, chain = case['node'].split('|')
 		node = f'{{| private_key := {blit(bytes.fromhex(key))}; chain_code := {blit(bytes.fromhex(chain))} |}}'
 		return f'{"render_symbol_pair" if case["facade"] == "symbol" else "render_nem_pair"} {node}'
-	if kind == 'session':
+	if kind in ('session', 'pathsession'):
 		return None
 	if kind == 'mnemonic':
 		if not case['in_model']:
@@ -544,6 +673,8 @@ def oracle(case, out):
 		return None
 	if kind == 'session':
 		return session_oracle(case, out)
+	if kind == 'pathsession':
+		return path_session_oracle(case, out)
 	if kind == 'mnemonic':
 		seed = bip39_seed(case['mnemonic'], case['passphrase'])
 		expected = '|'.join(part.hex() for part in slip10_root(case['curve'], seed))
@@ -552,6 +683,31 @@ def oracle(case, out):
 			return f'from_mnemonic gives {out}, from_seed of the BIP39 seed gives {via_seed}'
 		return None if out == expected else f'from_mnemonic gives {out}, SLIP-10 root of the BIP39 seed is {expected}'
 	raise ValueError(kind)
+
+
+def path_session_oracle(case, out):
+	coin = {('symbol', 'mainnet'): 4343, ('nem', 'mainnet'): 43}.get((case['facade'], case['network']), 1)
+	if '#' not in out:
+		return f'{case["facade"]} {case["network"]}: a sequence of bip32_path calls raised {out}'
+	returned, kept = (part.split(';') for part in out.split('#'))
+	history = []
+	for number, (step, seen) in enumerate(zip(case['steps'], returned)):
+		expected = f'44,{coin},{step["account"]},0,0'
+		if seen != expected:
+			return f'{case["facade"]} {case["network"]} bip32_path({step["account"]}), call {number + 1} on one facade after {", ".join(history) or "nothing"}: ' \
+				f'[{seen}], expected [{expected}]'
+		history.append(f'bip32_path({step["account"]}) with the returned list then edited by the caller ({step["then"]})')
+	for number, (step, seen) in enumerate(zip(case['steps'], kept)):
+		mine = [44, coin, step['account'], 0, 0]
+		try:
+			edit_path(mine, step['then'])
+		except IndexError:
+			pass
+		expected = ','.join(str(v) for v in mine)
+		if seen != expected:
+			return f'{case["facade"]} {case["network"]}: the list returned by call {number + 1}, bip32_path({step["account"]}) (caller\'s edit: {step["then"]}), ' \
+				f'reads [{seen}] after the later calls {[later["account"] for later in case["steps"][number + 1:]]}; it was [{expected}]'
+	return None
 
 
 def session_oracle(case, out):
@@ -601,7 +757,9 @@ def case_kind(case, out):
 	if kind == 'path':
 		return f'path:{case["facade"]}:{case["network"] if case["network"] in ("mainnet", "testnet") else "other-name"}'
 	if kind == 'keypair':
-		return f'keypair:{case["facade"]}:{case["network"]}'
+		return f'keypair:{case["facade"]}:{case["network"]}' + (f':node-key-with-{case["zero_byte"]}-zero-byte' if 'zero_byte' in case else '')
+	if kind == 'pathsession':
+		return f'pathsession:{case["facade"]}:{case["network"]}:{len(case["steps"])}'
 	if kind == 'root':
 		return f'root:{case["label"]}-curve-label'
 	if kind == 'session':
@@ -657,7 +815,10 @@ def run(check, unrecognised):
 		'every derive case is also derived over ALL split points and index-by-index on the implementation and compared with an independent ' \
 		'SLIP-10; split/outside/root/path/keypair/mnemonic kinds and call sequences on ONE Bip32 instance (session: the same mnemonic ' \
 		'under several passphrases incl. the empty one, several mnemonics under one passphrase, repeats, from_seed and derivations in ' \
-		'between, every node re-derived twice and index by index and checked unchanged) as listed in input_distribution; Bip32 factories ' \
+		'between, every node re-derived twice and index by index and checked unchanged; related-paths: one node derives families of paths whose ' \
+		'spellings overlap -- 43/4343, 1/10..19, re-cut digits, prefixes and extensions) as listed in input_distribution; key pairs of accounts whose ' \
+		'node key starts / ends with a zero byte (searched with the SLIP-10 reference); several bip32_path calls on ONE facade with the returned ' \
+		'lists kept and edited by the caller; Bip32 factories ' \
 		'and facades are shared by all other cases of a run; distinct = distinct (kind, arguments); ' \
 		'non-trivial = all (each runs at least one HMAC or one facade rule)'
 	if unrecognised.get('Bip32Ops'):
